@@ -337,3 +337,46 @@ Proof.
     destruct (In_nth_error _ _ Hj) as [j Ej]. destruct (In_nth_error _ _ Ho) as [p Ep].
     apply (H j p o). unfold get_op. rewrite Ej. exact Ep.
 Qed.
+
+Lemma positiveb_positive I : positiveb I = true -> positive I.
+Proof.
+  unfold positiveb, positive. rewrite forallb_forall. intros H j p o Ho.
+  destruct (get_op_In_job _ _ _ _ Ho) as [Hj Hin]. specialize (H _ Hj). rewrite forallb_forall in H.
+  specialize (H _ Hin). unfold positive_opb in H. apply andb_true_iff in H. destruct H as [H1 H2].
+  apply Z.ltb_lt in H1. split; [exact H1|]. destruct (machines o); [discriminate|discriminate].
+Qed.
+
+(** every operation has exactly one position in [all_keys], hence exactly
+    one operation node *)
+Lemma NoDup_all_keys I : NoDup (all_keys I).
+Proof.
+  apply NoDup_nth_error. intros i k Hi E.
+  destruct (nth_error (all_keys I) i) as [[j p]|] eqn:Ei; [|apply nth_error_None in Ei; lia].
+  symmetry in E. apply all_keys_nth in Ei. apply all_keys_nth in E. destruct Ei as [_ ->]. destruct E as [_ ->].
+  reflexivity.
+Qed.
+
+Lemma op_nodes_nth I u x :
+  nth_error (op_nodes I) u = Some x <->
+  exists j p o, get_op I j p = Some o /\ u = op_id I j p /\ x = (u, OpNode j p).
+Proof.
+  unfold op_nodes. rewrite nth_error_map. split.
+  - destruct (nth_error (all_keys I) u) as [[j p]|] eqn:E; [|discriminate]. simpl. intros H. inversion H; subst.
+    apply all_keys_nth in E. destruct E as ((o & Ho) & ->). exists j, p, o. auto.
+  - intros (j & p & o & Ho & -> & ->).
+    assert (E : nth_error (all_keys I) (op_id I j p) = Some (j, p)) by (apply all_keys_nth; eauto).
+    rewrite E. reflexivity.
+Qed.
+
+Lemma job_chain_asym I u v : job_chain I u v -> ~ job_chain I v u.
+Proof.
+  intros (j & p & o & o' & H1 & H2) (j' & p' & o2 & o2' & H3 & H4).
+  destruct (is_op_fun _ _ _ _ _ _ _ _ H1 H4) as (-> & -> & _).
+  destruct (is_op_fun _ _ _ _ _ _ _ _ H2 H3) as (_ & E & _). lia.
+Qed.
+
+Lemma share_machine_sym I u v : share_machine I u v -> share_machine I v u.
+Proof.
+  intros (Hne & j & p & o & j' & p' & o' & m & H1 & H2 & H3 & H4). split; [congruence|].
+  exists j', p', o', j, p, o, m. auto.
+Qed.
